@@ -17,6 +17,7 @@ import (
 	sdk "github.com/cosmos/cosmos-sdk/types"
 	"github.com/cosmos/cosmos-sdk/x/auth/migrations/legacytx"
 	didcrypto "github.com/medibloc/panacea-core/v2/x/did/client/crypto"
+	didkeeper "github.com/medibloc/panacea-core/v2/x/did/keeper"
 	didtypes "github.com/medibloc/panacea-core/v2/x/did/types"
 )
 
@@ -50,8 +51,8 @@ func runConc(seed uint64, n int, out string) {
 		msgs = append(msgs, &didtypes.MsgUpdateDIDRequest{Did: did, Document: doc, VerificationMethodId: vm, Signature: []byte("s"), FromAddress: mkAcct(0).Addr.String()})
 	}
 	const G = 8
-	var calls, panics int64
-	var firstPanic atomic.Value
+	var calls, panics, proofs, proofBad int64
+	var firstPanic, firstProof atomic.Value
 	var wg sync.WaitGroup
 	for g := 0; g < G; g++ {
 		wg.Add(1)
@@ -78,6 +79,35 @@ func runConc(seed uint64, n int, out string) {
 					_ = fmt.Sprintf("%v", m)
 				}()
 			}
+			// the DID proof code (what a simulation, a CheckTx and the block execution run side by side): every goroutine makes
+			// and checks proofs over its own documents and sequences; a proof made here must verify here
+			for i := 0; i < 120; i++ {
+				did := "did:panacea:" + strings.Repeat(string(didtypes.Base58Charset[1+g]), 32+i%12)
+				doc := &didtypes.DIDDocument{Id: did, VerificationMethods: []*didtypes.VerificationMethod{{Id: did + "#key1", Type: didtypes.ES256K_2019, Controller: did, PublicKeyBase58: key.b58}},
+					Authentications: []didtypes.VerificationRelationship{didtypes.NewVerificationRelationship(did + "#key1")}}
+				seq := uint64(g)<<32 + uint64(i)
+				func() {
+					defer func() {
+						if e := recover(); e != nil {
+							atomic.AddInt64(&proofBad, 1)
+							firstProof.CompareAndSwap(nil, fmt.Sprintf("panic in the proof code: %v", e))
+						}
+					}()
+					sig, err := didtypes.Sign(doc, seq, key.priv)
+					if err != nil {
+						return
+					}
+					atomic.AddInt64(&proofs, 1)
+					if _, ok := didtypes.Verify(sig, doc, seq, key.priv.PubKey()); !ok {
+						atomic.AddInt64(&proofBad, 1)
+						firstProof.CompareAndSwap(nil, fmt.Sprintf("a proof made over (%s, %d) did not verify over the same data in the goroutine that made it", did, seq))
+					}
+					if _, err := didkeeper.VerifyDIDOwnership(doc, seq, doc, did+"#key1", sig); err != nil {
+						atomic.AddInt64(&proofBad, 1)
+						firstProof.CompareAndSwap(nil, fmt.Sprintf("VerifyDIDOwnership refused a proof made over (%s, %d): %v", did, seq, err))
+					}
+				}()
+			}
 		}(g)
 	}
 	wg.Wait()
@@ -86,6 +116,10 @@ func runConc(seed uint64, n int, out string) {
 	if p := firstPanic.Load(); p != nil {
 		// the valid profile already decides sequential panics; here only note them
 		stats["panics-under-concurrency"] = int(panics)
+	}
+	stats["did-proofs-made-and-checked"] = int(proofs)
+	if p := firstProof.Load(); p != nil {
+		findings = append(findings, finding{Clause: "C20-proof-code-not-thread-safe", Detail: fmt.Sprintf("%d of %d proofs: %v", proofBad, proofs, p), Cmd: "conc profile: 8 goroutines, types.Sign / types.Verify / keeper.VerifyDIDOwnership"})
 	}
 	// key store from several goroutines
 	dir, err := os.MkdirTemp("", "hx-ks-")
